@@ -3,6 +3,7 @@ package main
 import (
 	"fmt"
 	"go/ast"
+	"go/token"
 	"go/types"
 )
 
@@ -64,6 +65,14 @@ func (ex *Exec) callStd2(full string, fobj *types.Func, args []Value, e *ast.Cal
 		key := "?"
 		if o, ok := args[0].(OpaqueV); ok {
 			key = fmt.Sprint(o.Data)
+			// DecodeString(EncodeToString(b)) is a fresh copy of b and no error
+			if sl, isSl := o.Data.(SliceV); isSl && o.Kind == "hexstr" && sl.Abs == nil && sl.SymLen == nil {
+				cp := ex.newBytes("hexdec@"+ex.where(e), sl.Len, sl.Len)
+				for i := 0; i < sl.Len; i++ {
+					cp.Cells[i] = sl.Obj.Cells[sl.Off+i]
+				}
+				return TupleV{SliceV{Obj: cp, Len: sl.Len, Cap: sl.Len, Elem: sl.Elem}, IntI(0)}
+			}
 		}
 		m := ex.hexOf(key)
 		if ex.decide(m.ok, ex.where(e)) {
@@ -110,6 +119,42 @@ func (ex *Exec) callStd2(full string, fobj *types.Func, args []Value, e *ast.Cal
 		}
 		it := machType(types.Typ[types.Int])
 		return Ite(eq, ex.constOf(bi(1), it), ex.constOf(bi(0), it))
+	case "crypto/subtle.XORBytes":
+		d, x, y := args[0].(SliceV), args[1].(SliceV), args[2].(SliceV)
+		if d.Abs != nil || x.Abs != nil || y.Abs != nil || d.SymLen != nil || x.SymLen != nil || y.SymLen != nil {
+			ex.unsupported("subtle.XORBytes on slices of unknown length at %s", ex.where(e))
+		}
+		n := x.Len
+		if y.Len < n {
+			n = y.Len
+		}
+		if d.Len < n {
+			ex.oblige("safety", "XORBytes#len@"+ex.where(e), BoolC(false), "dst too short")
+			panic(pathEnd{"XORBytes dst too short"})
+		}
+		tmp := make([]Value, n)
+		for i := 0; i < n; i++ {
+			tmp[i] = ex.binop(token.XOR, ex.resolve(x.Obj.Cells[x.Off+i]).(*Term), ex.resolve(y.Obj.Cells[y.Off+i]).(*Term), u8t, ex.where(e))
+		}
+		for i := 0; i < n; i++ {
+			d.Obj.Cells[d.Off+i] = tmp[i]
+		}
+		if n > 0 {
+			ex.noteWrite(d.Obj, d.Off, n)
+		}
+		return ex.constOf(bi(int64(n)), machType(types.Typ[types.Int]))
+	case "slices.Clone", "bytes.Clone":
+		sl := args[0].(SliceV)
+		if sl.Abs != nil || sl.SymLen != nil || sl.Obj == nil {
+			ex.unsupported("%s of a slice of unknown length at %s", full, ex.where(e))
+		}
+		o := ex.newBytes("clone@"+ex.where(e), sl.Len, sl.Len)
+		for i := 0; i < sl.Len; i++ {
+			o.Cells[i] = sl.Obj.Cells[sl.Off+i]
+		}
+		return SliceV{Obj: o, Len: sl.Len, Cap: sl.Len, Elem: sl.Elem}
+	case "slices.Equal":
+		return ex.callStd2("bytes.Equal", fobj, args, e)
 	case "slices.Grow":
 		// slices.Grow(s, n): the same slice when cap(s)-len(s) >= n, otherwise a copy with larger capacity
 		sl := args[0].(SliceV)
